@@ -175,9 +175,28 @@ class C16(Prop):
             if case["env"] is not None:
                 os.environ["ASPHALT_SERVICE"] = case["env"]
             calls: list[Any] = []
+            nested: dict[str, Any] = {}
+
+            def invoke(args: list[str]) -> Any:
+                """One invocation whose application is a recorder: what it was started with, or how it failed."""
+                seen: list[Any] = []
+                with mock.patch("asphalt.core._cli.run_application", lambda c, cfg=None, **kw: seen.append((to_cfg(c), to_cfg(cfg), to_cfg(kw)))):
+                    try:
+                        main.main(args, standalone_mode=False)
+                    except Exception as e:  # noqa: BLE001
+                        return ("failed", type(e).__name__, seen)
+                return ("ok", seen)
+
+            # a second invocation with no --service, (a) on its own beforehand and (b) made while the application of the
+            # first is running (what a supervisor running several services in one process does): the same outcome,
+            # invocations do not leak into each other
+            argv2 = ["run", *paths] + [x for s_ in case["sets"] for x in ("--set", s_)]
+            alone = invoke(argv2) if case["svc"] is not None else None
 
             def recorder(component_class: Any, config: Any = None, **kwargs: Any) -> None:
                 calls.append((component_class, config, kwargs))
+                if alone is not None and not nested:
+                    nested["r"] = invoke(argv2)
 
             try:
                 with mock.patch("asphalt.core._cli.run_application", recorder):
@@ -196,6 +215,8 @@ class C16(Prop):
                 if old is not None:
                     os.environ["ASPHALT_SERVICE"] = old
         outcome["calls"] = len(calls)
+        if nested and nested["r"] != alone:
+            outcome["nested_differs"] = f"on its own: {str(alone)[:300]}; while another invocation's application was running: {str(nested['r'])[:300]}"
         if calls:
             cls, cfg, kw = calls[0]
             kw = dict(kw)
@@ -235,6 +256,9 @@ class C16(Prop):
     def monitor(self, case, impl):
         exp = impl["expected"]
         fails = []
+        if impl.get("nested_differs"):
+            fails.append("an invocation without --service behaves differently while the application of another invocation "
+                         "(with --service) is running in the same process: " + impl["nested_differs"])
         if exp is None:  # outside the statement (both component and services, crashes)
             return fails
         if impl["status"] == "err" and impl["calls"]:
